@@ -92,6 +92,51 @@ def impl_op(cux, op):
     return 'bad-op'
 
 
+def _wreck(x):
+    """destroy a returned value in place, as deeply as Python allows"""
+    if isinstance(x, list):
+        for y in x:
+            _wreck(y)
+        x.clear()
+    elif isinstance(x, (set, dict)):
+        x.clear()
+    elif isinstance(x, tuple):
+        for y in x:
+            _wreck(y)
+
+
+def _freeze(x):
+    if isinstance(x, (list, tuple)):
+        return tuple(_freeze(y) for y in x)
+    if isinstance(x, (set, frozenset)):
+        return ('set',) + tuple(sorted(_freeze(y) for y in x))
+    if isinstance(x, dict):
+        return ('dict',) + tuple(sorted((k, _freeze(v)) for k, v in x.items()))
+    return x
+
+
+def fresh_results(res, name, call, desc):
+    """the value a function returns belongs to the caller: destroying it in place must not change what the same call
+    returns next time (a memo table handing out its own entry would)"""
+    try:
+        r1 = call()
+        if hasattr(r1, '__next__'):
+            r1 = list(r1)
+        want = _freeze(r1)
+        _wreck(r1)
+        r2 = call()
+        if hasattr(r2, '__next__'):
+            r2 = list(r2)
+        got = _freeze(r2)
+    except Exception as e:
+        res.violation(name + ':repeated-call-raises:' + type(e).__name__, desc, type(e).__name__, 'the same result as the first call')
+        return False
+    if got != want:
+        res.violation(name + ':result-shared-with-later-calls', desc, repr(got)[:160], repr(want)[:160] + ' (as returned by the first call)')
+        return False
+    return True
+
+
 def object_error_kinds(res, dsdobjects, strings):
     """complex construction and structural views on ill-formed structures: only SecondaryStructureError
     (or the construction-time ObjectInitError / SingletonError families) may escape, never a table"""
@@ -112,7 +157,10 @@ def object_error_kinds(res, dsdobjects, strings):
             res.violation('ComplexS:ill-formed:' + type(e).__name__, {'op': ['ComplexS', ' '.join(seq), s]},
                           type(e).__name__, 'SecondaryStructureError (or a complex whose structural views raise it)')
             continue
-        for view in ('pair_table', 'is_connected_raw', 'exterior_domains', 'get_paired_loc', 'rotate_pt'):
+        # every view is asked twice, the second time after all others have failed once: a failure must not leave a
+        # half-initialised cache behind that answers the next query
+        views = ('exterior_domains', 'pair_table', 'is_connected_raw', 'enclosed_domains', 'get_paired_loc', 'rotate_pt')
+        for view in views + views:
             try:
                 if view == 'pair_table':
                     list(c.pair_table)
@@ -120,6 +168,8 @@ def object_error_kinds(res, dsdobjects, strings):
                     c.get_loop_index((0, 0))
                 elif view == 'exterior_domains':
                     c.exterior_domains
+                elif view == 'enclosed_domains':
+                    c.enclosed_domains
                 elif view == 'get_paired_loc':
                     c.get_paired_loc((0, 0))
                 elif view == 'rotate_pt':
